@@ -42,7 +42,32 @@ LEAN_TARGETS = ["PV.Prog.Thm"]
 DRIVER = "drv_prog"
 HARNESS = {"bin": "pvh_prog", "features": "default"}
 THEOREMS = [
+    # (a) fuel
+    "PV.Prog.parseProgramFuel_mono",
+    "PV.Prog.parseProgram_total",
+    "PV.Prog.accepts_iff_eventually",
+    "PV.Prog.c11Mono",
+    "PV.Prog.progMono",
+    # (b) positions
     "PV.Prog.parseProgram_layout_free",
+    # (c) entry points
+    "PV.Prog.parse_expr_stmt_agree",
+    "PV.Prog.parse_expr_stmt_agreeT",
+    "PV.Prog.interactive_module_agree",
+    "PV.Prog.yield_is_statement_only",
+    "PV.Prog.semicolon_is_statement_only",
+    "PV.Prog.leading_newline_is_statement_only",
+    "PV.Prog.starred_both_ways",
+    "PV.Prog.walrus_neither_way",
+    "PV.Prog.c11Suf",
+    "PV.Prog.c11LastNL",
+    # (d) action code at program level
+    "PV.Prog.elif_chain_spec",
+    "PV.Prog.ifAssemble_spec",
+    "PV.Prog.import_level_spec",
+    "PV.Prog.annassign_simple_spec",
+    "PV.Prog.annassign_bare_name",
+    "PV.Prog.annassign_paren_name_simple",
 ]
 TRUSTED = [
     "Lean 4.33.0 kernel; axioms limited to propext, Classical.choice, Quot.sound",
@@ -58,7 +83,18 @@ TRUSTED = [
     "f-string replacement fields are re-lexed by the small reference tokenizer PV.C11.lex (as in C11)",
     "tools/props/prog.py (generators, corpus, mutations), harness/src/bin/pvh_prog.rs, lean/Drv/Prog.lean",
 ]
-PARTIAL = []
+PARTIAL = [
+    "fuel: monotonicity is proved for every function of PV.Prog.Parse AND of PV.C11.Spec (progMono, c11Mono): a positive "
+    "answer never changes with more fuel.  The converse half — fuelFor is always enough, so a rejection is never an "
+    "out-of-fuel artefact — is stated (parseProgram_fuel_adequate_full) and not proved; every request of the streams runs "
+    "the driver with exactly fuelFor",
+    "parse_expr_stmt_agree is about acceptance for SOME (equivalently: every sufficiently large) fuel, on one-expression "
+    "lines (ExprLine: no NEWLINE / `;` inside, not starting with `yield`); the exceptions are witnessed at the driver's fuel",
+    "(e) statement printer `render` and the round trip parseProgram (render m) = some m: not built",
+    "the reference parser is tied to python.rs by correspondence only; outside its lexical domain (dropped from the "
+    "streams and counted in the notes): a line break inside an f-string replacement field, `f'{:spec}'` with an empty "
+    "expression (PV.C11.Spec.fstrField lacks the EmptyExpression check there)",
+]
 RULE = ("one request = one source text x one mode; both sides answer with the canonical range-erased, ctx-erased tree or "
         "`parse-error`; byte-identical answers required")
 READY = True
